@@ -98,11 +98,18 @@ def run(ctx):
     it_hist, k_hist, ties_total = {}, {}, 0
     by_tol = 0
     by_tol1 = 0
-    for tier, cnt in (("Z", nZ), ("F", nF)):
+    nC, nB = ctx.budget(120, 800), ctx.budget(6, 30)
+    dt_hutch = {}
+    for tier, cnt in (("Z", nZ), ("F", nF), ("C", nC), ("B", nB)):
         cases = [H.gen_case(ctx, gen, tier) for _ in range(cnt)]
         obs = [H.run_impl(c) for c in cases]
         ok_idx = [i for i, o in enumerate(obs) if o.get("ok")]
-        failing, ties, err = H.eval_in_coq(f"s{ctx.seed}", [(cases[i], obs[i]) for i in ok_idx], tier)
+        for c in cases:
+            dt_hutch[f"{c['dt']}/{c['rand']}"] = dt_hutch.get(f"{c['dt']}/{c['rand']}", 0) + 1
+        if tier in ("Z", "F"):     # complex operators and n > 100 (bs = 100 != n): independent oracle only
+            failing, ties, err = H.eval_in_coq(f"s{ctx.seed}", [(cases[i], obs[i]) for i in ok_idx], tier)
+        else:
+            failing, ties, err = [], [], None
         if err:
             mism.append(dict(oracle_fail=False, harness_error=err))
         failset = {ok_idx[i] for i in failing}
@@ -119,13 +126,14 @@ def run(ctx):
                 if o["iters"] > 1 or c["k"] != 0:
                     distinct.add(core.digest([c["D"], c["k"], c["key"], c["max_iters"], c["tol"], c["rand"]]))
             if bad or i in failset or not chain:
-                mism.append(dict(oracle_fail=bool(bad), part="hutch", key_chain_as_modelled=chain, case={k: v for k, v in c.items()},
+                mism.append(dict(oracle_fail=bool(bad), part="hutch", key_chain_as_modelled=chain,
+                                 case={k: (v if k != "D" or c["n"] <= 8 else "(omitted: n > 8; regenerate from the seed)") for k, v in c.items()},
                                  got=dict(out=np.asarray(o.get("out")).tolist() if o.get("ok") else None, iters=o.get("iters"), err=o.get("err")),
                                  failed_clauses=bad, model_disagrees=(i in failset)))
         if tier == "Z":
             samples.append(dict(part="hutch", n=cases[0]["n"], k=cases[0]["k"], key=cases[0]["key"], max_iters=cases[0]["max_iters"],
                                 tol=cases[0]["tol"], rand=cases[0]["rand"], D=cases[0]["D"], iters=obs[0].get("iters")))
-    extra.update(hutch_cases=nZ + nF, hutch_iteration_histogram=it_hist, hutch_offset_histogram=k_hist, near_tie=ties_total,
+    extra.update(hutch_cases=nZ + nF + nC + nB, hutch_cases_compared_in_coq=nZ + nF, hutch_dtype_probe_histogram=dt_hutch, hutch_iteration_histogram=it_hist, hutch_offset_histogram=k_hist, near_tie=ties_total,
                  hutch_stopped_by_tolerance_after_more_than_one_block=by_tol, hutch_stopped_by_tolerance=by_tol1)
 
     # statistical unbiasedness (never a theorem)
@@ -135,9 +143,16 @@ def run(ctx):
     for f in fails:
         mism.append(dict(oracle_fail=True, part="hutch_unbiased_ztest", case=f, failed_clauses=["mean over keys is more than 8 standard errors from the true entry"]))
 
+    tests, fails = H.variance_test(ctx, ctx.budget(4, 16), ctx.budget(500, 1200))
+    evaluations += tests
+    extra.update(variance_tests=tests, variance_test_failures=len(fails))
+    for f in fails:
+        mism.append(dict(oracle_fail=True, part="hutch_variance_test", case=f,
+                         failed_clauses=["the variance of the estimate over keys is not the analytic variance of independent probes divided by their number"]))
+
     # ---------------- parts A/C: histories against the generator machine ----------------
     nh = ctx.budget(120, 700)
-    terms, hists, site_hist, not_reachable = [], [], {}, {}
+    terms, hists, site_hist, not_reachable, dt_hist = [], [], {}, {}, {}
     for hno in range(nh):
         h = R.gen_history(ctx.rng, ctx.rng.randint(4, 14), R.SITES)
         seed0 = ctx.rng.randint(0, 2 ** 31)
@@ -148,12 +163,12 @@ def run(ctx):
         for i, e in enumerate(h):
             if e["e"] == "cola":
                 site_hist[e["site"]] = site_hist.get(e["site"], 0) + 1
-                try:
-                    clean[i] = R.clean_result(e)
-                except Exception as ex:
-                    clean[i] = ([], 0)
-                    not_reachable[e["site"]] = f"{type(ex).__name__}: {ex}"
-                distinct.add(core.digest([e[k] for k in ("site", "n", "mseed", "key", "k", "max_iters", "tol", "rank")]))
+                clean[i] = R.clean_result(e)
+                dt_hist[e["dt"]] = dt_hist.get(e["dt"], 0) + 1
+                if clean[i][2] is not None:
+                    kx = f"{e['site']}:{e['dt']}:{clean[i][2]}"
+                    not_reachable[kx] = not_reachable.get(kx, 0) + 1
+                distinct.add(core.digest([e[k] for k in ("site", "n", "mseed", "key", "k", "max_iters", "tol", "rank", "dt")]))
         evaluations += len(h)
         bad = R.oracle_history(h, impl, clean, lob)
         terms.append(R.coq_history(h, g0, states, impl, tabs, lob, clean))
@@ -170,7 +185,7 @@ def run(ctx):
     logging.disable(logging.NOTSET)
     extra.update(histories=nh, events=sum(len(h[0]) for h in hists), site_histogram=site_hist,
                  lobpcg_modelled_as="np.random draw on the global state" if lob else "keyed",
-                 sites_raising=not_reachable,
+                 sites_not_reachable_by_dtype=not_reachable, history_dtype_histogram=dt_hist,
                  unkeyed_randn_sites_observed=[f["got"] for f in fnd if f["flag"] == "unkeyed_randn_sites"][0])
     return dict(
         evaluations=evaluations, distinct_nontrivial=len(distinct),
